@@ -161,7 +161,11 @@ def build(spec, emission=False, direct=False, order=None, kdir=None):
             CIACache().add_cia(mem_cia_class()(e_['pair'], spec['wn'], e_['xsec']))
     chem = TaurexChemistry(fill_gases=['H2', 'He'], ratio=spec['he_h2'])
     for g in spec['gases']:
-        chem.addGas(ConstantGas(g, mix_ratio=spec['mix'][g]))
+        if g in spec.get('mixarr', {}):      # a per-layer profile (exact zeros in some layers allowed)
+            from taurex.data.profiles.chemistry.gas.arraygas import ArrayGas
+            chem.addGas(ArrayGas(g, mix_ratio_array=np.array(spec['mixarr'][g], float)))
+        else:
+            chem.addGas(ConstantGas(g, mix_ratio=spec['mix'][g]))
     planet = Planet(planet_mass=spec['planet_mass'], planet_radius=spec['planet_radius'])
     star = BlackbodyStar(temperature=spec['star_T'], radius=spec['star_radius'])
     if len(spec['T']) == 1:
